@@ -371,8 +371,21 @@ func c03Queries(c *Ctx) {
 			return
 		}
 		rt := roaring.New()
-		if _, err := rt.ReadFrom(bytes.NewReader(buf)); err != nil {
-			c.Fail("query/Checksum/ReadFrom", "ReadFrom failed: %v", err)
+		// the stream may arrive in pieces of any size (short reads are legal for an io.Reader)
+		var rerr error
+		switch r.Intn(3) {
+		case 0:
+			_, rerr = rt.ReadFrom(bytes.NewReader(buf))
+		case 1:
+			_, rerr = rt.ReadFrom(&chunkedReader{data: append([]byte(nil), buf...), r: r})
+		default:
+			src := sourceZoo(r, buf)
+			c.Step("round trip through source: %s", src.name)
+			_, rerr = rt.ReadFrom(src.rd)
+			src.done()
+		}
+		if rerr != nil {
+			c.Fail("query/Checksum/ReadFrom", "ReadFrom failed on the library's own bytes: %v", rerr)
 			return
 		}
 		if g := rt.Checksum(); g != cs {
